@@ -192,6 +192,53 @@ theorem adf12_roundtrip (pad : α) (bs : List (Blk12 α)) (h : ∀ b ∈ bs, WF1
   simp only [List.append_nil] at this
   exact this
 
+theorem parseBlocks12_short (pad : α) (m : Nat) :
+    ∀ (bs : List (Blk12 α)), (∀ b ∈ bs, WF12 b) → ∀ d,
+      parseBlocks12 lexK12 (bs.length + (m + 1)) (bs.flatMap (renderBlk12 pad)) d = .error .value := by
+  intro bs
+  induction bs with
+  | nil => intro _ d; simp [parseBlocks12, parseBlock12, needLine, bind, Except.bind]
+  | cons b bs ih =>
+    intro h d
+    have : (b :: bs).length + (m + 1) = (bs.length + (m + 1)) + 1 := by simp only [List.length_cons]; omega
+    rw [this]
+    simp only [List.flatMap_cons, parseBlocks12]
+    rw [parseBlock12_render pad b (h b List.mem_cons_self)]
+    exact ih (fun b' hb' => h b' (List.mem_cons_of_mem _ hb')) _
+
+/-- ADF12: a file whose first line announces more blocks than it holds is rejected (`ValueError` from the empty
+header line), not returned short -/
+theorem adf12_absent_block_rejected (pad : α) (bs : List (Blk12 α)) (h : ∀ b ∈ bs, WF12 b) (k : Nat) (hk : bs.length < k) :
+    parse12 lexK12 (.count k :: bs.flatMap (renderBlk12 pad)) = .error .value := by
+  obtain ⟨m, rfl⟩ : ∃ m, k = bs.length + (m + 1) := ⟨k - bs.length - 1, by omega⟩
+  unfold parse12
+  simp only [needLine, bind, Except.bind, opt]
+  exact parseBlocks12_short pad m bs h []
+
+/-- non-vacuity: an ADF12 block with 7 energies (not a multiple of 6), parsed by evaluation -/
+def sample12 : Blk12 Nat where
+  up := 8
+  lo := 7
+  qefref := 1
+  refs := [2, 3, 4, 5, 6]
+  ener := [10, 11, 12, 13, 14, 15, 16]
+  qener := fun i => 100 + i
+  tiev := [20]
+  qtiev := fun i => 200 + i
+  densi := [30, 31]
+  qdensi := fun i => 300 + i
+  zeff := [40]
+  qzeff := fun _ => 400
+  bmag := [50]
+  qbmag := fun _ => 500
+
+example : parse12 (lexK12 (α := Nat)) (render12 0 [sample12])
+    = .ok [((8, 7), { eb := [10, 11, 12, 13, 14, 15, 16], ti := [20], ni := [30, 31], z := [40], b := [50],
+                      qeb := [100, 101, 102, 103, 104, 105, 106], qti := [200], qni := [300, 301], qz := [400], qb := [500],
+                      ebref := 2, tiref := 3, niref := 4, zref := 5, bref := 6, qref := 1 })] := by decide
+
+example : WF12 sample12 := ⟨rfl, by decide, by decide, by decide, by decide, by decide⟩
+
 /-! ## ADF11 -/
 section adf11
 variable {ν : Type} [DecidableEq ν] (neg : α → Bool)
@@ -464,8 +511,8 @@ theorem dictSet_new (d : List (κ × β)) (k : κ) (v : β) (h : k ∉ d.map (·
   | cons kv d ih =>
     obtain ⟨k', v'⟩ := kv
     simp only [List.map_cons, List.mem_cons, not_or] at h
-    simp only [dictSet, beq_iff_eq, List.cons_append]
-    rw [if_neg (fun e => h.1 e.symm), ih h.2]
+    simp only [dictSet, List.cons_append]
+    rw [if_neg (fun e => h.1 (eq_of_beq e).symm), ih h.2]
 
 theorem foldl_dictSet_nodup (l : List (κ × β)) :
     ∀ (d : List (κ × β)), (d.map (·.1) ++ l.map (·.1)).Nodup →
@@ -495,8 +542,8 @@ theorem dictGet_absent (l : List (κ × β)) (k : κ) (h : k ∉ l.map (·.1)) :
   | cons kv l ih =>
     obtain ⟨k', v'⟩ := kv
     simp only [List.map_cons, List.mem_cons, not_or] at h
-    simp only [dictGet, beq_iff_eq]
-    rw [if_neg (fun e => h.1 e.symm), ih h.2]
+    simp only [dictGet]
+    rw [if_neg (fun e => h.1 (eq_of_beq e).symm), ih h.2]
 
 end dict
 
@@ -643,12 +690,11 @@ theorem extractAll_render (t : Tab15 α ω σ) (cfg : List (Trans σ × Nat)) :
       simp [extractAll, hx, present, hf]
     | some b =>
       rw [hf] at hx
-      simp only [extractAll, hx, ih, List.all_cons, present, hf, Option.isSome_some, Bool.true_and]
+      have hp : present t (tr, k) = true := by simp [present, hf]
+      simp only [extractAll, hx, ih, List.all_cons, hp, Bool.true_and]
       by_cases hall : cfg.all (present t) = true
-      · simp only [present] at hall
-        simp [hall, ratesFor, hf]
+      · simp [hall, ratesFor, hf]
       · have : (cfg.all (present t)) = false := by simpa using hall
-        simp only [present] at this
         simp [this]
 
 /-- every transition of every type refers to a block that the data section contains -/
@@ -725,6 +771,50 @@ theorem extract_finds_block (t : Tab15 α ω σ) (k : Nat) :
   extractRate_render (σ := σ) t k
 
 end adf15
+
+/-- non-vacuity of the ADF15 theorems: a full-configuration file with two blocks (3×2 and 1×1), index without the dot -/
+def sample15 : Tab15 Nat Nat Nat where
+  blocks := [{ isel := 1, wl := 1215, typ := .excit, ne := [1, 2, 3], te := [4, 5], rate := fun i j => 10 * i + j },
+             { isel := 2, wl := 6561, typ := .recom, ne := [7], te := [8], rate := fun _ _ => 99 }]
+  cfgs := [{ id := 1, conf := 11, spin := 2, l := 0, j := 5 }, { id := 2, conf := 12, spin := 2, l := 1, j := 15 }]
+  idx := [{ isel := 1, wl := 121567, up := 2, lo := 1, typ := .excit }, { isel := 2, wl := 656280, up := 2, lo := 1, typ := .recom }]
+  dialect := .full false
+
+example : (parse15 lexK15 ⟨none, false, false, false⟩ (render15 sample15)).toOption.map (fun o => (o.excitation, o.recombination, o.wavelength))
+    = some ([((.cfg 12 2 1 15, .cfg 11 2 0 5), { ne := [1, 2, 3], te := [4, 5], rate := [[0, 1], [10, 11], [20, 21]] })],
+            [((.cfg 12 2 1 15, .cfg 11 2 0 5), { ne := [7], te := [8], rate := [[99]] })],
+            [((.cfg 12 2 1 15, .cfg 11 2 0 5), 656280)]) := by decide
+
+example : WF15 sample15 ∧ Selects ⟨none, false, false, false⟩ sample15.dialect ∧ AllPresent sample15 := by
+  refine ⟨⟨by decide, by decide, ?_⟩, ⟨rfl, rfl, rfl⟩, ?_⟩
+  · intro dot _; decide
+  · intro T; cases T <;> decide
+
+/-- … and dropping the second data block makes the same call fail with RuntimeError -/
+def sample15short : Tab15 Nat Nat Nat := { sample15 with blocks := sample15.blocks.take 1 }
+
+example : parse15 lexK15 ⟨none, false, false, false⟩ (render15 sample15short) = .error .runtime
+    ∧ ¬ AllPresent sample15short := by
+  refine ⟨by decide, fun h => ?_⟩
+  have := h .recom
+  revert this
+  decide
+
+/-- non-vacuity for ADF21/22: 2 energies × 3 densities, 1 temperature -/
+def sample2x : Tab2x Nat where
+  zt := 1
+  spec := 0
+  svref := 9
+  tref := 8
+  eref := 7
+  dref := 6
+  eb := [1, 2]
+  dt := [3, 4, 5]
+  tt := [10]
+  svt := fun _ => 11
+  sv := fun i j => 100 * i + j
+
+example : (parse2x (lexK2x (α := Nat)) (render2x sample2x)).toOption.map (·.sen) = some [[0, 1, 2], [100, 101, 102]] := by decide
 
 /-! ### the resolved-file probe: concrete witness of the mis-detection -/
 
